@@ -64,6 +64,7 @@ def run(chk):
     chk.lean_obligations()
     ac.kernel_correspondence(chk, want='score')
     ac.dispatcher_checks(chk, want='score')
+    ac.pairwise_entry(chk, want='score')
     rescore_agreement(chk)
 
 
